@@ -110,6 +110,18 @@ def make_probe_class():
 
 
 _PROBE = None
+_FALSY = []
+
+
+def _falsy_probe_class():
+    """A task class whose instances are falsy (a task that is also a container, empty at the moment): the scheduler only
+    requires a do() method of its tasks."""
+    if not _FALSY:
+        class FalsyProbe(_PROBE):
+            def __len__(self):
+                return 0
+        _FALSY.append(FalsyProbe)
+    return _FALSY[0]
 
 
 def build(cfg, rs, tasks=None):
@@ -124,7 +136,8 @@ def build(cfg, rs, tasks=None):
         if j not in deps[i]:
             deps[i].append(j)
     if tasks is None:
-        tasks = {i: _PROBE(i, rs, sorted(deps[i])) for i in range(1, n + 1)}
+        falsy = set(cfg.get('falsy') or ())
+        tasks = {i: (_falsy_probe_class() if i in falsy else _PROBE)(i, rs, sorted(deps[i])) for i in range(1, n + 1)}
     hard = {tasks[i]: [] for i in tasks}
     soft = {tasks[i]: [] for i in tasks}
     for i, j, kind in cfg['edges']:
@@ -232,6 +245,19 @@ def execute(cfg, strategy, on_step=None, max_steps=None, attach=None):
 
     ctl = detsched.Controller(strategy, max_steps=max_steps or (60 + 40 * cfg['n'] + 10 * cfg['workers']) * 4, on_step=on_step)
     ctl.holder = holder
+    if cfg.get('interrupt'):
+        # an exception delivered to the master (Ctrl-C) at its n-th scheduling point, if that point lies inside the try
+        # block of execute_tasks: before it takes a lock, queues a task (the condition variable is then its own), waits
+        # or joins the queue -- not while it is already stopping the workers
+        def allow(op):
+            kind = op[0] if isinstance(op, tuple) else op
+            if kind in ('acq', 'wait', 'qjoin'):
+                return True
+            if kind == 'put':
+                conds = getattr(ctl, 'conds', [])
+                return bool(conds) and conds[-1].lock.owner is ctl.threads[0]
+            return False
+        ctl.main_inject = dict(at=int(cfg['interrupt']), exc=KeyboardInterrupt('delivered by the harness'), allow=allow)
     if attach is not None:
         attach(ctl, rs)
     try:
@@ -370,6 +396,10 @@ class Recorder:
             mpc = 'raised' if master.exc is not None else 'returned'
         else:
             p = master.pending.op
+            if isinstance(p, tuple) and p[0] == 'intr':     # an exception is about to be delivered instead of this operation
+                p = p[1:] if len(p) > 2 else (p[1] if len(p) == 2 and not isinstance(p[1], tuple) else p[1:])
+                if isinstance(p, str):
+                    p = (p,)
             if p == 'start':
                 mpc = 'start'
             elif p[0] == 'acq':
@@ -455,7 +485,8 @@ def record(cfg, strategy, max_steps=None, hook=None):
                                    for i in range(1, cfg['n'] + 1)],
                           outcome_real=[cfg['outcome'].get(str(i), 'ok') for i in range(1, cfg['n'] + 1)],
                           init=[(cfg.get('init') or {}).get(str(i), 'ABSENT') for i in range(1, cfg['n'] + 1)],
-                          order=order, calls=cfg.get('calls', 1), nested=cfg.get('nested') or {}, prior=cfg.get('prior') or {}),
+                          order=order, calls=cfg.get('calls', 1), nested=cfg.get('nested') or {}, prior=cfg.get('prior') or {},
+                          interrupt=int(cfg.get('interrupt') or 0), falsy=sorted(cfg.get('falsy') or [])),
                  events=events, verdict=ex.ctl.verdict, raised=repr(ex.raised) if ex.raised is not None else '',
                  schedule=[t for t, _ in ex.ctl.trace])
     return ex, trace
